@@ -202,6 +202,34 @@ pub fn sites(_tier: Tier) -> Vec<Site> {
                 }
             }));
     }
+    // no memory between calls: every ordered pair of wire forms (and five non-codes) decoded one after the
+    // other on the same thread - the second result is what the table says for the second value
+    {
+        let mut forms: Vec<Vec<u8>> = tracks.iter().filter_map(|(_, t)| wire(t)).collect();
+        forms.extend([b"BL1\0\0X".to_vec(), b"bl1\0\0\0".to_vec(), b"ZZ9\0\0\0".to_vec(), vec![0; 6], b"RO11XY".to_vec()]);
+        let forms = Arc::new(forms);
+        let by_wire = by_wire.clone();
+        let n = (forms.len() * forms.len()) as u64;
+        sites.push(Site::new("decode-pairs", n,
+            "every ordered pair of (wire forms of all variants + five non-codes) decoded back to back on one thread",
+            move |i, acc| {
+                acc.eval();
+                let a = &forms[(i as usize) / forms.len()];
+                let b = &forms[(i as usize) % forms.len()];
+                let _ = guard(|| Track::read_le(&mut Cursor::new(&a[..])));
+                let r = guard(|| Track::read_le(&mut Cursor::new(&b[..])));
+                let replay = || json!({"site": "decode-pairs", "index": i, "first": hex(a), "second": hex(b)});
+                match r {
+                    Err(p) => acc.violate(i, "C14|decode|panic".into(), format!("{} after {}: {p}", hex(b), hex(a)), replay()),
+                    Ok(Err(_)) if !by_wire.contains_key(b) => { acc.class("pair-rejected"); acc.nontrivial(); },
+                    Ok(Err(_)) => acc.violate(i, format!("C14|history-dependent|{}", by_wire[b]), format!("{} (wire form of {}) is rejected when decoded right after {}", hex(b), by_wire[b], hex(a)), replay()),
+                    Ok(Ok(t)) => match wire(&t) {
+                        Some(w) if w[..] == b[..] => { acc.class("pair-exact"); acc.nontrivial(); },
+                        _ => acc.violate(i, format!("C14|history-dependent|{t:?}"), format!("{} decodes to {t:?} when decoded right after {}", hex(b), hex(a)), replay()),
+                    },
+                }
+            }));
+    }
     // the 6 bytes delivered in pieces: same track (or the same refusal) as from a plain cursor
     {
         let mut forms: Vec<Vec<u8>> = tracks.iter().filter_map(|(_, t)| wire(t)).collect();
